@@ -223,8 +223,11 @@ func genAuth(tier string, run int, r *simcore.Rand) *harness.Plan {
 		ops = append(ops, PathOp{Sub: ap, Abs: true, Methods: allMethods})
 	}
 	ops = append(ops, PathOp{Sub: "/", Abs: true, Methods: []string{"GET"}, Accept: "text/x-camli-configuration"})
-	// seeded order
+	// seeded order; the slow modes take a seeded half of the paths
 	perm := r.Perm(len(ops))
+	if slow {
+		perm = perm[:len(perm)/2]
+	}
 	for _, j := range perm {
 		p.Ops = append(p.Ops, harness.MustJSON(ops[j]))
 	}
@@ -597,6 +600,10 @@ func execAuth(rc *harness.RunCtx, p *harness.Plan) *harness.Outcome {
 						opLive++
 						live++
 					}
+					if ccode/100 == 2 {
+						// the control did what the endpoint is for
+						a.reachN("control-2xx:" + strings.TrimPrefix(authClass(op.Sub, m), "unauth-"))
+					}
 					discovery := op.Accept != "" || strings.Contains(op.Sub, "camli.mode=config")
 					path := pfx + a.expand(op.Sub, a.newU)
 					why, allowed := allowListed(path, m, sharePrefix, discovery)
@@ -684,7 +691,7 @@ func execAuth(rc *harness.RunCtx, p *harness.Plan) *harness.Outcome {
 	if hasUp && len(c2) > 0 {
 		a.reachN("control-multipart-stored")
 	}
-	if len(ops) == len(subPaths)+len(absPaths)+2 && (len(c1) == 0 || len(c2) == 0) && out.Violation == nil {
+	if (hasPut && len(c1) == 0 || hasUp && len(c2) == 0) && len(ops) >= (len(subPaths)+len(absPaths)+2)/2 && out.Violation == nil {
 		out.Inconclusive = fmt.Sprintf("control writes with the right credentials were not stored (put: %v, multipart: %v)", c1, c2)
 		return out
 	}
